@@ -4,7 +4,7 @@
    complete ones so that the statements read as intended. *)
 From Coq Require Import List NArith Bool.
 Import ListNotations.
-Require Import Decode.
+Require Import Decode TagSpec.
 Open Scope N_scope.
 
 Definition utf8_char (c : N) : list N :=
@@ -53,4 +53,203 @@ Definition ascii_first (text : list N) : bool :=
   match text with
   | c :: _ => (0 <? c) && (c <? 128)
   | [] => false
+  end.
+
+(* ================================================================================================ *)
+(* One-shot decoding of a whole byte string                                                          *)
+(* ================================================================================================ *)
+(* A byte string in one of the three encodings splits, from left to right, into PIECES: a character decoded
+   from n bytes, or a malformed sequence of n bytes.  [next] says what the first piece of a non-empty byte
+   string is; [pieces] iterates it over the whole string. *)
+Inductive piece :=
+| PChar (c : N) (n : N)
+| PBad (n : N).
+
+Definition psize (p : piece) : N := match p with PChar _ n => n | PBad n => n end.
+
+Section Pieces.
+  Variable next : list N -> piece.
+  Fixpoint pieces_go (fuel : nat) (bs : list N) : list piece :=
+    match fuel, bs with
+    | O, _ => []
+    | _, [] => []
+    | S f, _ :: _ => let p := next bs in p :: pieces_go f (skipn (N.to_nat (psize p)) bs)
+    end.
+  Definition pieces (bs : list N) : list piece := pieces_go (length bs) bs.
+End Pieces.
+
+(* ------------------------------------------------------------------------------------------------ *)
+(* UTF-8                                                                                             *)
+(* ------------------------------------------------------------------------------------------------ *)
+(* A character: some prefix of 1..4 bytes is accepted by the strict RFC 3629 decoder of Spec/TagSpec.v
+   (shortest form, no surrogates, at most U+10FFFF).  The code is prefix-free, so at most one length fits. *)
+Definition utf8_head (bs : list N) : option (N * N) :=
+  match utf8_decode (firstn 1 bs) with
+  | Some c => Some (c, 1)
+  | None =>
+  match utf8_decode (firstn 2 bs) with
+  | Some c => Some (c, 2)
+  | None =>
+  match utf8_decode (firstn 3 bs) with
+  | Some c => Some (c, 3)
+  | None =>
+  match utf8_decode (firstn 4 bs) with
+  | Some c => Some (c, 4)
+  | None => None
+  end end end end.
+
+(* Otherwise a malformed sequence, whose extent is the MAXIMAL SUBPART (Unicode 15, section 3.9, "U+FFFD
+   substitution of maximal subparts"; the WHATWG Encoding Standard prescribes the same): the longest
+   prefix that is also a prefix of some well-formed sequence, or one byte if there is none.  The well-formed
+   sequences are those of Table 3-7 of the Unicode Standard, row by row: *)
+Definition cont : N * N := (128, 191).
+Definition utf8_table : list (list (N * N)) :=
+  [ [(0, 127)];
+    [(194, 223); cont];
+    [(224, 224); (160, 191); cont];
+    [(225, 236); cont; cont];
+    [(237, 237); (128, 159); cont];
+    [(238, 239); cont; cont];
+    [(240, 240); (144, 191); cont; cont];
+    [(241, 243); cont; cont; cont];
+    [(244, 244); (128, 143); cont; cont] ].
+
+Definition in_range (r : N * N) (b : N) : bool := (fst r <=? b) && (b <=? snd r).
+
+(* number of leading bytes of [bs] that follow the row *)
+Fixpoint prefix_match (row : list (N * N)) (bs : list N) : N :=
+  match row, bs with
+  | r :: row', b :: bs' => if in_range r b then 1 + prefix_match row' bs' else 0
+  | _, _ => 0
+  end.
+
+Definition maximal_subpart (bs : list N) : N :=
+  N.max 1 (fold_right (fun row m => N.max (prefix_match row bs) m) 0 utf8_table).
+
+Definition utf8_next (bs : list N) : piece :=
+  match utf8_head bs with
+  | Some (c, k) => PChar c k
+  | None => PBad (maximal_subpart bs)
+  end.
+
+(* ------------------------------------------------------------------------------------------------ *)
+(* UTF-16 (RFC 2781; errors as in the WHATWG Encoding Standard, "UTF-16 decoder")                     *)
+(* ------------------------------------------------------------------------------------------------ *)
+Definition unit_of (big_endian : bool) (b0 b1 : N) : N :=
+  if big_endian then b0 * 256 + b1 else b1 * 256 + b0.
+Definition is_high (u : N) : bool := (55296 <=? u) && (u <=? 56319).
+Definition is_low (u : N) : bool := (56320 <=? u) && (u <=? 57343).
+Definition astral (hi lo : N) : N := 65536 + (hi - 55296) * 1024 + (lo - 56320).
+
+(* a code unit that is not a surrogate is a character; a high surrogate followed by a low one is a character;
+   a high surrogate followed by anything else, a low surrogate on its own and a trailing single byte are
+   malformed; a high surrogate followed by nothing but a trailing single byte is ONE malformed sequence of
+   three bytes (end of input with both a pending surrogate and a pending byte is a single error) *)
+Definition utf16_next (big_endian : bool) (bs : list N) : piece :=
+  match bs with
+  | [] => PBad 0
+  | [_] => PBad 1
+  | b0 :: b1 :: tl =>
+      let u := unit_of big_endian b0 b1 in
+      if is_high u then
+        match tl with
+        | c0 :: c1 :: _ =>
+            let v := unit_of big_endian c0 c1 in
+            if is_low v then PChar (astral u v) 4 else PBad 2
+        | [_] => PBad 3
+        | [] => PBad 2
+        end
+      else if is_low u then PBad 2
+      else PChar u 2
+  end.
+
+Definition next_piece (e : encoding) : list N -> piece :=
+  match e with
+  | Utf8 => utf8_next
+  | Utf16LE => utf16_next false
+  | Utf16BE => utf16_next true
+  end.
+
+(* ------------------------------------------------------------------------------------------------ *)
+(* What the four traps make of the pieces                                                            *)
+(* ------------------------------------------------------------------------------------------------ *)
+Inductive decoded :=
+| DText (text : list N)                      (* Ok: the decoded text *)
+| DError (byte_idx : N) (bad : list N)       (* "Invalid character sequence at {byte_idx}: {bad:?}" *)
+| DCallbackError                             (* the callback's own message *)
+| DAbnormal.                                 (* panic / no result: never the value of the specification *)
+
+(* a callback, as far as the text is concerned: malformation_length, bytes_read_after_malformation,
+   input_at_malformation, the output so far -> the output it leaves, or Break (with an empty message?) *)
+Inductive tcb_result :=
+| TCbContinue (text : list N)
+| TCbBreak (empty_message : bool).
+Definition tcallback := N -> N -> list N -> list N -> tcb_result.
+
+Inductive strap :=
+| SIgnore
+| SStrict
+| SReplace
+| SCall (cb : tcallback).
+
+Definition slice (input : list N) (off n : N) : list N := firstn (N.to_nat n) (skipn (N.to_nat off) input).
+
+(* [off] = byte offset of the first piece in [input], [text] = what has been decoded so far *)
+Fixpoint apply_trap (t : strap) (input : list N) (off : N) (ps : list piece) (text : list N) : decoded :=
+  match ps with
+  | [] => DText text
+  | PChar c n :: ps' => apply_trap t input (off + n) ps' (text ++ [c])
+  | PBad n :: ps' =>
+      match t with
+      | SIgnore => apply_trap t input (off + n) ps' text
+      | SReplace => apply_trap t input (off + n) ps' (text ++ [REPLACEMENT])
+      | SStrict => DError off (slice input off n)
+      | SCall cb =>
+          match cb n 0 (skipn (N.to_nat off) input) text with
+          | TCbContinue text' => apply_trap t input (off + n) ps' text'
+          | TCbBreak true => DError off (slice input off n)
+          | TCbBreak false => DCallbackError
+          end
+      end
+  end.
+
+(* decoding in a given encoding *)
+Definition decode_as (e : encoding) (t : strap) (input : list N) (skip : N) : decoded :=
+  apply_trap t input skip (pieces (next_piece e) (skipn (N.to_nat skip) input)) [].
+
+(* YamlDecoder::decode up to the call of load_from_str: detect (a byte-order mark is not part of the text),
+   then decode *)
+Definition decode_spec (t : strap) (input : list N) : decoded :=
+  let '(e, k) := choose_encoding input in decode_as e t input k.
+
+(* the text of a byte string that is well-formed in encoding e, if it is *)
+Definition chars_of (ps : list piece) : option (list N) :=
+  fold_right (fun p acc => match p, acc with PChar c _, Some t => Some (c :: t) | _, _ => None end) (Some []) ps.
+
+(* ------------------------------------------------------------------------------------------------ *)
+(* Reading the loop model's outcome as a specification value                                         *)
+(* ------------------------------------------------------------------------------------------------ *)
+(* The callback of the loop model sees and returns (text, capacity); the specification's sees the text.
+   [xcb_of f g]: the callback whose effect on the text is f, and which leaves any capacity g it likes. *)
+Definition xcb_of (f : tcallback) (g : N -> N -> list N -> list N * N -> N) : xcallback :=
+  fun ml af rest tc =>
+    match f ml af rest (fst tc) with
+    | TCbContinue t' => XCbContinue t' (g ml af rest tc)
+    | TCbBreak e => XCbBreak e
+    end.
+
+Definition xtrap_of (t : strap) (g : N -> N -> list N -> list N * N -> N) : xtrap :=
+  match t with
+  | SIgnore => XIgnore
+  | SStrict => XStrict
+  | SReplace => XReplace
+  | SCall f => XCall (xcb_of f g)
+  end.
+
+Definition result_of (input : list N) (o : xoutcome) : decoded :=
+  match o with
+  | XDone text _ => DText text
+  | XDecodeError idx ml => DError idx (slice input idx ml)
+  | XCallbackError => DCallbackError
+  | XPanicked _ | XOutOfFuel => DAbnormal
   end.
